@@ -99,6 +99,14 @@ class C03Monitor(simfarm.Monitor):
             )
         elif getattr(rel, 'applied_status', None) != rel.outcome:
             sim.violation('recorded-outcome', f'{msg.jobid}[{tgt}] replied {rel.outcome}, recorded {rel.applied_status}')
+        else:
+            # the completion is recorded in the schedule as well: the unit no longer counts as executing
+            # (unless another release of the same unit is in flight - that is the recorded finding)
+            node = sim.nodes().get(msg.jobid)
+            others = [r for r in sim.inflight() if r.key() == rel.key() and r is not rel]
+            self.doing_checks = getattr(self, 'doing_checks', 0) + 1
+            if node is not None and not others and tgt in node.get('doing'):
+                sim.violation('completion-leaves-executing-set', f'{msg.jobid}[{tgt}] was answered ({rel.outcome}) and applied, the node still lists it as executing: doing={sorted(node.get("doing"))}')
 
     def on_unapplied(self, sim, rel):
         if rel.epoch != sim.epoch:
@@ -139,6 +147,7 @@ class C03Monitor(simfarm.Monitor):
         from ..result import h64  # pylint: disable=import-outside-toplevel
 
         res.count('replies_checked', self.replies)
+        res.count('executing_set_checks', getattr(self, 'doing_checks', 0))
         res.count('conservation_checks', self.cons)
         res.count('crew_view_checks', self.busy_checks)
         res.count('requests_while_in_flight', self.inflight_at_request)
